@@ -205,6 +205,17 @@ def run(chk: Check, ctx: Any) -> None:
         if any(isinstance(c, ast.Call) and dotted(c.func) == "SsbGraphMinimizer" for st in t.body for c in ast.walk(st)):
             main = t
     if main is None:
+        # the try block is the one that runs the graph passes; the graph itself must be built under it as well
+        for t in tries:
+            if any(isinstance(c, ast.Call) and isinstance(c.func, ast.Attribute) and c.func.attr in ("build_branches", "build_loops", "remove_label_markers")
+                   for st in t.body for c in ast.walk(st)):
+                main = t
+        ctor = next((c for c in walk_no_nested(conv.node) if isinstance(c, ast.Call) and dotted(c.func) == "SsbGraphMinimizer"), None)
+        if main is not None and ctor is not None:
+            chk.violation("C06-R1", "convert:graph-built-under-try", conv,
+                          "SsbGraphMinimizer(...) is constructed outside the try block whose handler produces the fallback: building the graph can fail (e.g. "
+                          "KeyError in _get_edges for a jump to the last op of the previous routine), and that failure then leaves convert()", node=ctor)
+    if main is None:
         raise AnalysisError("convert(): try block around the graph passes not found")
     fb = [h for h in main.handlers if any(isinstance(c, ast.Call) and dotted(c.func) == "SsbScriptSsbDecompiler" for c in ast.walk(h))]
     if len(fb) != 1:
